@@ -668,7 +668,7 @@ func gen(r *hx.Rand, tier string, i int) string {
 	// not generated here (see the report), so `loose` is never set for them
 	// updatekadid became decodable in the harness with the kad-valid key; its trailing-bytes class is listed in
 	// findings/C24.json (pending merge) and not generated until then
-	p := genPayload(r, cmd, r.Chance(6) && cmd != "updatekadid")
+	p := genPayload(r, cmd, r.Chance(6))
 	switch r.Intn(10) {
 	case 0, 1, 2, 3, 4, 5:
 		return "D " + hx.Hex(cb) + " " + hx.Hex(p)
